@@ -8,7 +8,8 @@ RULE = ("the impl table (every `impl SecureRng for`, the bound of ChaCha::from_r
         "finite theorems are re-decided on it; probes: small client programs compiled (rustc --emit=metadata) against the freshly built crate - assert_secure::<G>() and "
         "ChaCha12::from_rng(&mut Random<G>) for every public generator incl. a user-defined Rng (blanket-impl detector), csprng/new/seeded passed to a function requiring the marker; "
         "compositions of public types (Read<Random<G>>, Read<&mut Random<G>>, &mut G, Box<G>, Random<G>, Read over std readers) must be rejected; every impl header in the current source whose target is "
-        "not a ChaCha/System generator is instantiated (lifetimes, consts, candidate types) into client programs that must be rejected; "
+        "not a ChaCha/System generator is instantiated; every associated fn of a ChaCha type that takes a generator (inherent or through a trait impl) is called with unmarked generators and must be rejected; "
+        "impl headers whose target is not a ChaCha/System generator are instantiated (lifetimes, consts, candidate types) into client programs that must be rejected; "
         "accept/reject must equal what the property states. non-trivial = every probe; distinct = distinct probe source")
 TRUSTED = ["rustc's trait checking (the guarantee itself is enforced by the compiler)", "tools/extract.py (regex translation of impl headers; cross-checked by the probes)"]
 ASSUMPTIONS = ["the probes cover the generators exported from urandom::rng at the pinned commit plus one user-defined Rng; a newly added generator type would need a new probe"]
@@ -112,6 +113,12 @@ def synthesized_probes():
         for k, t in enumerate(instantiate(gen, target)):
             ps.append(("unexpected-impl:%s:%s#%d" % (rel, target, k), PRELUDE2 + "pub fn probe() { assert_secure::<%s>(); }\n" % t, False))
             ps.append(("unexpected-impl-seeds-chacha:%s:%s#%d" % (rel, target, k), PRELUDE2 + "pub fn probe(r: &mut urandom::Random<%s>) { let _ = urandom::rng::ChaCha12::from_rng(r); }\n" % t, False))
+    # every associated fn of a ChaCha type that takes another generator must demand the marker: call each with unmarked generators
+    for rel, header, fname, gen, args, where in extract.chacha_seeders():
+        m = __import__("re").search(r"impl\s*(?:<[^>]*>)?\s*([\w:]+)(?:<[^>]*>)?\s+for\s+ChaCha", header)
+        callee = "<urandom::rng::ChaCha12 as %s>::%s" % (m.group(1), fname) if m else "urandom::rng::ChaCha12::%s" % fname
+        for k, src in enumerate(["urandom::seeded(1)", "urandom::new()", "urandom::rng::SplitMix64::from_seed(1)", "urandom::rng::Wyrand::from_seed(1)", "urandom::Random::<UserRng>::from(UserRng)"]):
+            ps.append(("chacha-seeder:%s:%s:%s#%d" % (rel, header[:40], fname, k), PRELUDE2 + "pub fn probe() { let mut g = %s; let _ = %s(&mut g); }\n" % (src, callee), False))
     for w in WRAPPED:
         for b in WRAP_BASES:
             t = w.replace("{B}", b)
@@ -163,7 +170,7 @@ def extra(binary, build, tier, rng):
         yield {"kind": "oracle", "build": build, "request": "probe sanity-compiles", "impl": sane[4][-400:], "model": "", "oracle": "probe infrastructure broken: a trivially valid client does not compile"}
         return
     for name, src, want, got, err in results:
-        if not want and not got and "E0277" not in err and not name.startswith("unexpected-impl"):
+        if not want and not got and "E0277" not in err and not name.startswith(("unexpected-impl", "chacha-seeder")):
             # a probe that is rejected for another reason than the missing marker proves nothing
             yield {"kind": "note", "text": "probe %s is rejected for a reason other than the marker bound (vacuous): %s" % (name, err.strip().split("\n")[0][:160])}
         if want != got:
